@@ -166,6 +166,62 @@ def build_conv(dwm, dws, depth_s, K, wrapper=False):
     return h
 
 
+class FreeSlave(Module):
+    """any protocol-legal classic Wishbone memory slave: answers a request in a cycle of its own choosing - `go` is a solver input, so zero
+    wait states (combinational ack), one, or many are all covered - and drives arbitrary data (`junk`) whenever it is not acknowledging a read"""
+
+    def __init__(self, bus, depth):
+        dw = len(bus.dat_w)
+        nb = dw // 8
+        self.go = Signal(name_override="slave_go")
+        self.junk = Signal(dw, name_override="slave_junk")
+        self.words = [Signal(dw, name_override="smem%d" % i) for i in range(depth)]
+        idx = Signal(max=max(depth, 2))
+        self.comb += idx.eq(bus.adr[:len(idx)])
+        self.comb += bus.ack.eq(bus.cyc & bus.stb & self.go)
+        self.comb += If(bus.ack & ~bus.we, bus.dat_r.eq(Array(self.words)[idx])).Else(bus.dat_r.eq(self.junk))
+        for i, w in enumerate(self.words):
+            for b in range(nb):
+                self.sync += If(bus.ack & bus.we & (idx == i) & bus.sel[b], w[8 * b:8 * b + 8].eq(bus.dat_w[8 * b:8 * b + 8]))
+        self.free = [self.go, self.junk]
+
+
+def build_conv_free(dwm, dws, depth_s, K, wrapper=False):
+    """width converters in front of ANY legal slave (symbolic per-request latency including zero wait states, junk on dat_r outside read acks)"""
+    from litex.soc.interconnect import wishbone
+    top = Top()
+    sbus = wishbone.Interface(data_width=dws, adr_width=8)
+    mbus = wishbone.Interface(data_width=dwm, adr_width=8)
+    top.submodules.slave = slave = FreeSlave(sbus, depth_s)
+    if wrapper:
+        conv = wishbone.Converter(mbus, sbus)
+    elif dwm > dws:
+        conv = wishbone.DownConverter(mbus, sbus)
+    else:
+        conv = wishbone.UpConverter(mbus, sbus)
+    top.submodules.conv = conv
+    depth_m = depth_s * dws // dwm
+    top.submodules.mm = mm = WBMaster(mbus, depth_m, need_no_other=1 if dwm > dws else 0)
+    # slave-side protocol: a request presented to the slave is held unchanged until its ack
+    sreq = Cat(sbus.adr, sbus.we, sbus.sel, sbus.dat_w)
+    sp = top.reg(1, "s_pend"); sq = top.reg(len(sreq), "s_req")
+    top.sync += [sp.eq(sbus.cyc & sbus.stb & ~sbus.ack), sq.eq(sreq)]
+    bad_hold = Signal(name_override="bad_slave_request_not_held")
+    top.comb += bad_hold.eq(sp & ~(sbus.cyc & sbus.stb & (sreq == sq)))
+    zw = Signal(name_override="w_zero_wait_state_read")
+    first = top.reg(1, "s_first", reset=1)
+    top.sync += first.eq(~(sbus.cyc & sbus.stb) | sbus.ack)
+    top.comb += zw.eq(mm.w_rw & sbus.ack & first)
+    name = "%s_%dto%d_anyslave" % ("converter" if wrapper else ("down" if dwm > dws else "up"), dwm, dws)
+    h = H(name, top, mm.free + slave.free, rigid=[mm.A, mm.L], assume=[mm.asm, mm.asm_idx],
+          bad=dict(read_returns_last_enabled_write=mm.bad_read, ack_only_for_request=mm.bad_ack, slave_request_held_until_ack=bad_hold),
+          witness=dict(write_other_read=mm.w_rw, read_served_with_zero_wait_states=zw), K=K, funcs=FUNCS,
+          cfg=dict(master_width=dwm, slave_width=dws, slave_depth=depth_s, slave="symbolic latency >= 0, junk data outside read acks"),
+          show=mm.showl + [sbus.cyc, sbus.stb, sbus.adr, sbus.sel, sbus.ack, sbus.dat_r], vcycles=30)
+    h.init_free = list(slave.words)
+    return h
+
+
 def build_conv_burst(dwm, dws, depth_s, K):
     """DownConverter in front of a BURST-capable SRAM, master free to issue classic, constant, incrementing and wrapping bursts"""
     from litex.soc.interconnect import wishbone
@@ -338,6 +394,8 @@ def jobs(tier):
         js.append(Job("cache%d_%dto%d" % (cs, dwm, dws), build_cache, dict(cachesize=cs, dwm=dwm, dws=dws, depth_s=d, K=(16 if T else 12)), cost=30, timeout_s=3400))
     js.append(Job("warmcache4_8to8", build_cache_warm, dict(cachesize=4, depth_s=16, K=(18 if T else 16)), cost=60, timeout_s=3400))
     js.append(Job("down_burst_16to8", build_conv_burst, dict(dwm=16, dws=8, depth_s=32, K=(16 if T else 12)), cost=40, timeout_s=3400))
+    for (dwm, dws, d, wr) in ([(8, 32, 4, False), (32, 8, 8, False), (16, 32, 4, True)] + ([(8, 16, 4, False), (16, 8, 8, False), (32, 16, 4, True), (64, 8, 16, False)] if T else [])):
+        js.append(Job("%s_%dto%d_anyslave" % ("converter" if wr else ("down" if dwm > dws else "up"), dwm, dws), build_conv_free, dict(dwm=dwm, dws=dws, depth_s=d, K=K, wrapper=wr), cost=10))
     js.append(Job("remapper_origin", build_remap, dict(variant="origin", K=0)))
     js.append(Job("remapper_regions", build_remap, dict(variant="regions", K=0)))
     js.append(Job("wishbone2csr_registered", build_csrbridge, dict(register=True, K=K), cost=4))
